@@ -14,7 +14,20 @@ META = {
   "R is the invariant of C17_lru.h:c17_repr_ok; states outside R are not considered (R holds initially and is preserved, both checked)",
  ],
  "outside_claim": ["capacities > 3 (quick) / > 4 (thorough); the step is uniform in the capacity but that is not proved", "resumption decision in ssl_hs_server.t0 / ssl_hs_client.t0 (check-resume, save-session natives, full vs abbreviated handshake)", "real HMAC masking (collisions of masked IDs are treated by the code as 'ID already used')", "behaviour when the same ID is saved again while still held, or re-saved after forget: the code rejects the save (documented in ssl_lru.c), which differs from a literal 'most recently saved' reading", "store sizes >= 2^32 and stores changed behind the cache's back"],
- "mutants_tried": [],
+ "mutants_tried": [
+  "M1 lru_save evicts the list head (MRU) instead of the tail: VIOLATION in step-S300-n3-save, hist-S250-K3-N3",
+  "M2 lru_load does not move the found entry to the front: VIOLATION in step-S300-n2-load, step-S300-n3-load, hist-S250-K3-N3",
+  "M3 remove_node: replacement node does not adopt the removed node's left child (set_left dropped): VIOLATION in step-S300-n3-save, hist-S300-K4-N4-SSSS",
+  "M4 forget clears the cipher suite instead of the version (entry not disabled): VIOLATION in step-S300-n{1,2,3}-forget, hist-S100-K3-N2, hist-S100-K3-N2-lazy",
+  "M5 save of an ID still held inserts a duplicate (existence test removed): VIOLATION in step-S300-n{1,2,3}-save, hist-S250-K3-N3",
+  "M6 capacity test store_ptr >= store_len-100 (one entry less at exact multiples): VIOLATION in step-S300-n2-save, hist-S100-K3-N2, hist-S100-K3-N2-lazy",
+  "M7 remove_node: replacement's child taken from get_left only (right child of the replacement lost): VIOLATION in step-S300-n3-save, hist-S300-K4-N4-SSSS",
+  "M8 lru_load does not fix next->prev when unlinking a middle node: VIOLATION in step-S300-n3-load; NOT caught by hist-S250-K3-N3 (needs 3 list nodes, i.e. capacity >= 3)",
+  "M9 eviction does not null the new tail's next link: VIOLATION in step-S300-n3-save",
+  "M10 lru_load returns the cipher suite of the list head instead of the found node: VIOLATION in step-S300-n2-load, step-S300-n3-load; NOT caught by hist-S100-K3-N2 (capacity 1: head is the found node)",
+  "M11 lru_save does not reset the right tree link of the (re)used slot: VIOLATION in step-S300-n{0,1,2,3}-save",
+  "M12 capacity rounds up at non-multiples (store_ptr >= store_len): VIOLATION in step-S250-n2-save, hist-S199-K3-N2",
+ ],
 }
 
 QT = 900      # generous caps: the machine is shared; idle-machine times are in the descriptions
